@@ -11,6 +11,7 @@ CONSTANTS
   MaxSched = 1
   MaxBad = 2
   MaxTimeouts = 1
+  MaxConnLost = 0
   MaxAttempts = 0
   Filter = TRUE
 INVARIANTS TypeOK FinOnlyAfterAccept ReqOtherwise Unmodified AtLeastOnce NeverLost
